@@ -540,6 +540,29 @@ impl Cipher for ModelCipher {
     }
 }
 
+// The real AES-SIV ciphers are never instantiated in these harnesses (the key set has no keys,
+// cookies decode to `ModelCipher`s), but `dyn Cipher` calls are dispatched over every
+// implementor when symex cannot fold the vtable pointer, and would walk into the real AES code.
+// These stand-ins count calls; the harnesses assert the counter stays 0.
+pub static mut REAL_AES_CALLS: u8 = 0;
+use ntp_proto::verif::packet::crypto::{AesSivCmac256, AesSivCmac512};
+pub fn aes256_decrypt_unreachable(_c: &AesSivCmac256, _n: &[u8], _ct: &[u8], _aad: &[u8]) -> Result<Vec<u8>, DecryptError> {
+    unsafe { REAL_AES_CALLS += 1 };
+    Err(DecryptError)
+}
+pub fn aes512_decrypt_unreachable(_c: &AesSivCmac512, _n: &[u8], _ct: &[u8], _aad: &[u8]) -> Result<Vec<u8>, DecryptError> {
+    unsafe { REAL_AES_CALLS += 1 };
+    Err(DecryptError)
+}
+pub fn aes256_encrypt_unreachable(_c: &AesSivCmac256, _b: &mut [u8], _n: usize, _aad: &[u8]) -> std::io::Result<EncryptResult> {
+    unsafe { REAL_AES_CALLS += 1 };
+    Err(std::io::ErrorKind::Other.into())
+}
+pub fn aes512_encrypt_unreachable(_c: &AesSivCmac512, _b: &mut [u8], _n: usize, _aad: &[u8]) -> std::io::Result<EncryptResult> {
+    unsafe { REAL_AES_CALLS += 1 };
+    Err(std::io::ErrorKind::Other.into())
+}
+
 /// Model of `KeySet::decode_cookie`: the cookie bytes are opaque; the harness-chosen ghost
 /// `COOKIE_VALID` says whether this server issued it (under a key it still holds). A valid
 /// cookie yields the association's two keys.
@@ -654,24 +677,22 @@ impl NtsLayout {
 /// ideal-AEAD / cookie models (the extents the client authenticated). `msg` must not move
 /// afterwards.
 pub fn build_nts_request(msg: &mut [u8], lay: &NtsLayout, version: u8) {
+    // loop-free (the unwind bound of these harnesses is 3..4): zero up to 16 bytes
+    fn zero16(msg: &mut [u8], o: usize, n: usize) {
+        assert!(n <= 16);
+        macro_rules! z { ($($i:expr),*) => { $( if $i < n { msg[o + $i] = 0; } )* } }
+        z!(0, 1, 2, 3, 4, 5, 6, 7, 8, 9, 10, 11, 12, 13, 14, 15);
+    }
     msg[0] = (version << 3) | 3;
     put_ef(msg, lay.o_uid(), EF_UID, (4 + lay.uid) as u16);
     put_ef(msg, lay.o_cookie(), EF_COOKIE, (4 + lay.cookie) as u16);
-    let mut i = 4;
-    while i < lay.cookie {
-        msg[lay.o_cookie() + 4 + i] = 0;
-        i += 1;
-    }
-    let mut k = 0;
-    while k < lay.placeholders {
-        put_ef(msg, lay.o_placeholder(k), EF_PLACEHOLDER, (4 + lay.placeholder) as u16);
-        let mut i = 0;
-        while i < lay.placeholder {
-            msg[lay.o_placeholder(k) + 4 + i] = 0;
-            i += 1;
-        }
-        k += 1;
-    }
+    zero16(msg, lay.o_cookie() + 8, lay.cookie - 4);
+    assert!(lay.placeholders <= 8);
+    macro_rules! ph { ($($k:expr),*) => { $( if $k < lay.placeholders {
+        put_ef(msg, lay.o_placeholder($k), EF_PLACEHOLDER, (4 + lay.placeholder) as u16);
+        zero16(msg, lay.o_placeholder($k) + 4, lay.placeholder);
+    } )* } }
+    ph!(0, 1, 2, 3, 4, 5, 6, 7);
     let e = lay.o_enc();
     put_ef(msg, e, EF_ENCRYPTED, lay.enc_total() as u16);
     wr16(msg, e + 4, lay.nonce as u16);
@@ -679,11 +700,7 @@ pub fn build_nts_request(msg: &mut [u8], lay: &NtsLayout, version: u8) {
     let ct = e + 8 + lay.nonce;
     if lay.inner == 1 {
         put_ef(msg, ct, EF_PLACEHOLDER, (4 + lay.placeholder) as u16);
-        let mut i = 0;
-        while i < lay.placeholder {
-            msg[ct + 4 + i] = 0;
-            i += 1;
-        }
+        zero16(msg, ct + 4, lay.placeholder);
     } else if lay.inner == 2 {
         put_ef(msg, ct, 0x0ABC, 12);
     }
@@ -715,6 +732,10 @@ macro_rules! srv_harness {
         harness! {
             #[kani::stub(ntp_proto::KeySet::decode_cookie, crate::common::model_decode_cookie)]
             #[kani::stub(ntp_proto::KeySet::encode_cookie, crate::common::model_encode_cookie)]
+            #[kani::stub(<ntp_proto::verif::packet::crypto::AesSivCmac256 as ntp_proto::verif::packet::crypto::Cipher>::decrypt, crate::common::aes256_decrypt_unreachable)]
+            #[kani::stub(<ntp_proto::verif::packet::crypto::AesSivCmac512 as ntp_proto::verif::packet::crypto::Cipher>::decrypt, crate::common::aes512_decrypt_unreachable)]
+            #[kani::stub(<ntp_proto::verif::packet::crypto::AesSivCmac256 as ntp_proto::verif::packet::crypto::Cipher>::encrypt, crate::common::aes256_encrypt_unreachable)]
+            #[kani::stub(<ntp_proto::verif::packet::crypto::AesSivCmac512 as ntp_proto::verif::packet::crypto::Cipher>::encrypt, crate::common::aes512_encrypt_unreachable)]
             #[kani::stub(ntp_proto::TimeSnapshot::root_dispersion, crate::common::root_dispersion_stub)]
             #[kani::stub(core::str::from_utf8, crate::common::from_utf8_stub)]
             #[kani::stub(core::slice::ascii::is_ascii, crate::common::is_ascii_stub)]
